@@ -16,6 +16,7 @@
 #include <memory>
 #include <sched.h>
 #include <algorithm>
+#include <functional>
 
 namespace {
 typedef std::vector<int> Prog;  // 1 = insert, 0 = fetch
@@ -30,6 +31,8 @@ struct Sched {
   long steps = 0, budget = 100000;
   bool freerun = false;
   std::vector<std::vector<uint8_t>> alts;
+  // scripted mode: a controller decides who runs next (thread at a point = self, -1 at the start)
+  std::function<int(int)> script;
   // PCT mode
   bool pct = false; std::vector<int> prio; std::vector<long> change_at; vh::Rng* rng = nullptr;
 
@@ -38,6 +41,12 @@ struct Sched {
     for (int i = 0; i < n; i++) if (alive[i]) en.push_back(i);
     if (en.empty()) return -1;
     int pick;
+    if (script) {
+      pick = script(self);
+      if (pick < 0 || pick >= n || !alive[pick]) pick = en[0];
+      steps++;
+      return pick;
+    }
     if (pct) {
       for (long cp : change_at) if (cp == steps && self >= 0) prio[self] = -(int)steps;  // demote the running thread
       pick = en[0];
@@ -76,8 +85,10 @@ thread_local int tid = -1;
 thread_local int cas_points_in_op = 0;
 std::atomic<long> yield_every{0};
 thread_local uint64_t yield_rng = 88172645463325252ULL;
+int lastpt[8] = {0, 0, 0, 0, 0, 0, 0, 0};   // the schedule point each scheduled thread is waiting at
 void hook(int id) {
   if (id == 3 || id == 5) cas_points_in_op++;
+  if (tid >= 0 && tid < 8) lastpt[tid] = id;
   if (S && tid >= 0) { S->point(tid); return; }
   long ye = yield_every.load(std::memory_order_relaxed);
   if (ye > 0) {  // stress mode: random yields at the schedule points
@@ -141,6 +152,100 @@ History run_once(const std::vector<Prog>& progs, int cap, int prefill, Sched& s)
   return h;
 }
 
+// ---- recurrence hunt: the classic failure of a versioned lock-free stack.  A victim is stalled right before the
+// compare-and-swap of its pop (it has read the head {counter,index} and the successor of that record); two helper
+// threads then rearrange the list until the same record is on top again with ANOTHER successor, and one of them keeps
+// cycling fetch+insert (which restores the shape and advances the version) until the raw head word equals the one
+// the victim read, or a budget of cycles is spent.  If the head recurs the victim is resumed: its stale compare-and-
+// swap succeeds and the history shows what that does.  A head whose version cannot recur within the budget is the
+// expected outcome (counted); what is judged is always the client-side history.
+struct HuntResult { bool shape_reached = false, head_recurred = false; long cycles = 0; std::string why; std::string note; };
+HuntResult hunt_once(vh::Rng& r, int cap, int prefill, bool victim_inserts, long cycle_budget) {
+  HuntResult res;
+  std::unique_ptr<ICache> c(make_shared_cache(cap));
+  History h; const int n = 3;
+  h.got.resize(n); h.ins.resize(n); h.fail.resize(n);
+  for (int k = 0; k < prefill; k++) { uint64_t id = (uint64_t(99) << 32) | (uint64_t)(k + 1); if (c->insert(id)) h.prefilled.push_back(id); }
+  const int L = victim_inserts ? 1 : 0;   // the list the victim pops from
+  Sched s; s.n = n; s.alive.assign(n, 1); s.budget = 2000000000L;
+  enum Phase { VICTIM_RUN, TAIL, NEUTRAL, RESUME, FINISH } phase = VICTIM_RUN;
+  unsigned long long c0 = 0, i0 = 0, n0 = 0;
+  long tail_ops = 0; int runner = 1;
+  for (int k = 0; k < 8; k++) lastpt[k] = 0;
+  auto shape = [&]() { unsigned long long cc, ii; c->head(L, cc, ii); return ii == i0 && i0 != (unsigned long long)cap && c->next(i0) != n0; };
+  auto recurred = [&]() { unsigned long long cc, ii; c->head(L, cc, ii); return ii == i0 && cc == c0 && c->next(i0) != n0; };
+  s.script = [&](int self) -> int {
+    switch (phase) {
+      case VICTIM_RUN:
+        if (self == 0 && lastpt[0] == 3) {   // the victim has read head and successor and is about to compare-and-swap
+          c->head(L, c0, i0); n0 = c->next(i0);
+          phase = TAIL; return 1 + (int)r.pick(2);
+        }
+        return s.alive[0] ? 0 : 1;
+      case TAIL:
+        if (self >= 1 && s.alive[self] && !r.coin(0.3)) return self;
+        return 1 + (int)r.pick(2);
+      case NEUTRAL: return 1;
+      case RESUME: return s.alive[0] ? 0 : 1;
+      default: for (int t = 0; t < n; t++) if (s.alive[t]) return t; return -1;
+    }
+  };
+  // what a helper does next: 1 insert, 0 fetch, -1 stop, -2 hand over to the scheduler and ask again
+  int neutral_step = 0;
+  auto next_op = [&](int t) -> int {
+    if (phase == FINISH) return -1;
+    if (phase == VICTIM_RUN) return -2;
+    if (phase == TAIL) {
+      if (t == 1 && shape()) { res.shape_reached = true; phase = NEUTRAL; neutral_step = 0; }
+      else { if (++tail_ops > 60) { phase = FINISH; return -1; } return r.coin(0.5); }
+    }
+    if (phase == NEUTRAL) {
+      if (t != 1) return -2;
+      if (neutral_step == 0) {
+        if (!shape()) { phase = TAIL; return r.coin(0.5); }       // the other helper's stalled operation got in the way
+        if (recurred()) { res.head_recurred = true; phase = RESUME; return -2; }
+        if (++res.cycles > cycle_budget) { phase = FINISH; return -1; }
+      }
+      // fetch then insert when the data list is not empty, insert then fetch otherwise: either restores both lists
+      unsigned long long cc, ii; c->head(0, cc, ii);
+      static thread_local int first = 0;
+      if (neutral_step == 0) { first = (ii != (unsigned long long)cap) ? 0 : 1; neutral_step = 1; return first; }
+      neutral_step = 0; return 1 - first;
+    }
+    if (phase == RESUME) { if (!s.alive[0]) { phase = FINISH; return -1; } return -2; }
+    return -1;
+  };
+  S = &s;
+  std::vector<std::thread> th;
+  for (int t = 0; t < n; t++)
+    th.emplace_back([&, t] {
+      tid = t; s.start_wait(t);
+      uint64_t ctr = 0;
+      if (t == 0) {
+        if (victim_inserts) { uint64_t id = (uint64_t(1) << 32) | (++ctr); if (c->insert(id)) h.ins[0].push_back(id); else h.fail[0].push_back(id); }
+        else { uint64_t v = c->get(); if (v) h.got[0].push_back(v); }
+      } else {
+        for (;;) {
+          int op = next_op(t);
+          if (op == -1) break;
+          if (op == -2) { lastpt[t] = 0; s.point(t); if (s.freerun) break; continue; }
+          if (op) { uint64_t id = (uint64_t(t + 1) << 32) | (++ctr); if (c->insert(id)) h.ins[t].push_back(id); else h.fail[t].push_back(id); }
+          else { uint64_t v = c->get(); if (v) h.got[t].push_back(v); }
+        }
+      }
+      s.finish(t); tid = -1;
+    });
+  { std::unique_lock<std::mutex> l(s.m); int first = s.choose(-1); s.cur = first; s.cv.notify_all(); }
+  for (auto& t : th) t.join();
+  S = nullptr;
+  for (;;) { uint64_t v = c->get(); if (!v) break; h.drained.push_back(v); if (h.drained.size() > 1000) break; }
+  res.why = judge(h);
+  res.note = vh::fmt("victim %s stalled before the compare-and-swap of its pop having read head{counter=%llu,index=%llu} successor=%llu; %ld helper operations, %ld restoring cycles",
+                     victim_inserts ? "insert" : "fetch", c0, i0, n0, tail_ops, res.cycles);
+  if (s.freerun) res.why = "step budget exceeded";
+  return res;
+}
+
 void all_programs(int maxlen, std::vector<Prog>& out) {
   for (int len = 1; len <= maxlen; len++) for (int bits = 0; bits < (1 << len); bits++) { Prog p; for (int k = 0; k < len; k++) p.push_back((bits >> k) & 1); out.push_back(p); }
 }
@@ -197,10 +302,36 @@ int main(int argc, char** argv) {
   long NSEQ = 4 * 2;            // sequential enumeration blocks: capacity x variant
   long NPCT = c.n(200, 1500);   // random longer programs under PCT schedules
   long NSTRESS = c.n(8, 64);    // real-thread stress runs
+  long NHUNT = c.n(24, 96);     // head-recurrence hunts (stalled victim, adaptive helpers)
   std::set<uint64_t> sched_hashes, final_hashes;
   long total_exec = 0;
 
-  vh::run_cases(c, 19, NC + NSEQ + NPCT + NSTRESS, [&](long idx, vh::Rng& r) {
+  vh::run_cases(c, 19, NC + NSEQ + NPCT + NSTRESS + NHUNT, [&](long idx, vh::Rng& r) {
+    if (idx >= NC + NSEQ + NPCT + NSTRESS) {
+      long k = idx - (NC + NSEQ + NPCT + NSTRESS);
+      bool victim_inserts = k % 2;
+      int cap = 3 + (int)((k / 2) % 2);
+      int prefill = victim_inserts ? (int)r.pick(cap - 1) : 2 + (int)r.pick(cap - 1);
+      long budget = thorough ? 140000 : 70000;   // restoring cycles of two updates each: covers a 16-bit version field (twice in the thorough tier)
+      std::string what = vh::fmt("head-recurrence hunt: capacity=%d prefill=%d victim=%s", cap, prefill, victim_inserts ? "insert" : "fetch");
+      c.desc(what); c.count("configs.hunt"); c.nontrivial(vh::fnv_str(what + std::to_string(idx)));
+      // cheap attempts until the helpers have produced the dangerous shape, then one expensive cycling phase
+      HuntResult hr;
+      for (int attempt = 0; attempt < 200; attempt++) {
+        hr = hunt_once(r, cap, prefill, victim_inserts, budget);
+        c.eval(); total_exec++; c.count("hunt.attempts");
+        if (!hr.why.empty() || hr.shape_reached) break;
+      }
+      if (hr.shape_reached) c.count("hunt.same_record_on_top_with_another_successor");
+      c.count(hr.head_recurred ? "hunt.head_word_recurred_and_victim_resumed" : "hunt.head_word_did_not_recur_within_budget");
+      c.count("hunt.restoring_cycles", hr.cycles);
+      if (hr.why == "step budget exceeded") c.violation("hang:C19:step-budget-exceeded", what + ": " + hr.note);
+      else if (!hr.why.empty())
+        c.violation("C19:concurrent:" + std::string(hr.why.find("two takers") != std::string::npos ? "value-handed-out-twice" : hr.why.find("lost") != std::string::npos ? "value-lost" : "conservation"),
+                    what + ": " + hr.why + "; " + hr.note);
+      if (k < 2) c.sample(what + ": " + hr.note);
+      return;
+    }
     if (idx < NC) {
       const Config& cf = cfgs[idx];
       std::string what = progstr(cf.progs, cf.cap, cf.prefill);
